@@ -105,6 +105,25 @@ pub fn count<const QL: usize, S: Src>(s: &mut S) -> R {
     Ok(())
 }
 
+/// `SYSTem:ERRor:COUNt?` on a device whose queue reports an ARBITRARY number of unread items
+/// (any queue implementation, abstracted to its length; < 100000 so that the decimal decoder stays
+/// within the solver's reach)
+pub fn count_any<S: Src>(s: &mut S) -> R {
+    let mut d: Dev<3> = Dev::draw(s, 0);
+    let n = s.u32() as usize;
+    assume!(s, n < 100000);
+    d.fake_count = Some(n);
+    let d0 = d.regs();
+    let mut ctx = Context::default();
+    let mut out: ArrayVec<u8, 32> = ArrayVec::new();
+    let res = hcall::query(&SystErrCountCommand, &mut d, &mut ctx, P::None, &mut out);
+    crate::note!("C13 count_any: {} unread items -> response {:?} ({:?})", n, core::str::from_utf8(&out), res);
+    witness!(n > 255, "count_any: more than 255 unread items");
+    ob!(res.is_ok() && decode_nr1(&out) == Some(n as u64), "C13: SYST:ERR:COUN? does not return the number of unread items");
+    ob!(d.regs() == d0, "C13: SYST:ERR:COUN? changed the device");
+    Ok(())
+}
+
 /// `SYSTem:ERRor:ALL?` with QL queued errors whose numbers are three-digit negative ones
 /// (-999..=-100, every SCPI-defined class), so that every item has the fixed width of
 /// `-ddd,"queued"` and the response is compared at fixed positions
